@@ -2615,6 +2615,8 @@ vbi_format_vt_page(vbi_decoder *vbi,
 				break;
 
 			case 0x0C:		/* normal size */
+				if (ac.size != VBI_NORMAL_SIZE)
+					held_mosaic_unicode = 0xEE20;
 				ac.size = VBI_NORMAL_SIZE;
 				break;
 
@@ -2677,6 +2679,10 @@ vbi_format_vt_page(vbi_decoder *vbi,
 			case 0x00 ... 0x07:	/* alpha + foreground color */
 				ac.foreground = ext->foreground_clut + (raw & 7);
 				ac.conceal = FALSE;
+				/* EN 300 706 12.2: the held mosaic is reset to
+				   space on a change of alpha/mosaics mode or size. */
+				if (mosaic)
+					held_mosaic_unicode = 0xEE20;
 				mosaic = FALSE;
 				break;
 
@@ -2699,20 +2705,27 @@ vbi_format_vt_page(vbi_decoder *vbi,
 			case 0x0D:		/* double height */
 				if (row <= 0 || row >= 23)
 					break;
+				if (ac.size != VBI_DOUBLE_HEIGHT)
+					held_mosaic_unicode = 0xEE20;
 				ac.size = VBI_DOUBLE_HEIGHT;
 				double_height = TRUE;
 				break;
 
 			case 0x0E:		/* double width */
 				printv("spacing col %d row %d double width\n", column, row);
-				if (column < (COLUMNS - 1))
+				if (column < (COLUMNS - 1)) {
+					if (ac.size != VBI_DOUBLE_WIDTH)
+						held_mosaic_unicode = 0xEE20;
 					ac.size = VBI_DOUBLE_WIDTH;
+				}
 				break;
 
 			case 0x0F:		/* double size */
 				printv("spacing col %d row %d double size\n", column, row);
 				if (column >= (COLUMNS - 1) || row <= 0 || row >= 23)
 					break;
+				if (ac.size != VBI_DOUBLE_SIZE)
+					held_mosaic_unicode = 0xEE20;
 				ac.size = VBI_DOUBLE_SIZE;
 				double_height = TRUE;
 
@@ -2721,6 +2734,8 @@ vbi_format_vt_page(vbi_decoder *vbi,
 			case 0x10 ... 0x17:	/* mosaic + foreground color */
 				ac.foreground = ext->foreground_clut + (raw & 7);
 				ac.conceal = FALSE;
+				if (!mosaic)
+					held_mosaic_unicode = 0xEE20;
 				mosaic = TRUE;
 				break;
 
